@@ -182,7 +182,10 @@ def run(prog, rep, tier, repo):
         if f0 is None:
             rep.viol('first-occurrence', key, 'function disappeared')
             continue
-        bodies = [f0] + [prog.func(b.key) for kk, b in pdb.bodies.items() if kk.startswith(k + '::{closure')]
+        # the function, the helpers it delegates to (`argmax = try_argmax(..).unwrap_or(0)`) and all their closures
+        reach = sorted(kk for kk in prog.closure(k) if kk in pdb.bodies)
+        bodies = [f0] + [prog.func(kk) for kk in reach if kk != k]
+        bodies += [prog.func(b.key) for kk, b in sorted(pdb.bodies.items()) if any(kk.startswith(r + '::{closure') for r in reach) and kk not in reach]
         verdicts = []
         for g in bodies:
             rep.touch(g.body.key)
@@ -224,7 +227,29 @@ def run(prog, rep, tier, repo):
             adaptors = [short(c.path) for g in bodies for c in g.calls() if c.path and c.path.startswith('std::iter::Iterator::') and
                         short(c.path) in ('min_by', 'max_by', 'min_by_key', 'max_by_key')]
             rev = any(short(c.path) == 'rev' for g in bodies for c in g.calls() if c.path and c.path.startswith('std::iter::'))
-            if adaptors and not rev:
+            # the comparator must be the natural order of the elements (partial_cmp / total_cmp of first vs second argument); anything else
+            # (reversed arguments, a key) is not read
+            natural = True
+            for g in bodies:
+                for c in g.calls():
+                    if c.path and c.path.startswith('std::iter::Iterator::') and short(c.path) in ('min_by', 'max_by') and len(c.args) == 2:
+                        cl_ = c.args[1]
+                        h_ = prog.func(cl_[2]) if tag(cl_) == 'agg' and cl_[1] == 'closure' else None
+                        rv_ = h_.return_values() if h_ is not None else []
+                        t_ = rv_[0] if len(rv_) == 1 else None
+                        while t_ is not None and tag(t_) == 'call' and short(t_[1]) in ('unwrap', 'unwrap_or', 'expect') and t_[2]:
+                            t_ = t_[2][0]
+                        okc = t_ is not None and tag(t_) == 'call' and short(t_[1]) in ('partial_cmp', 'total_cmp') and len(t_[2]) == 2
+
+                        def argno(z):
+                            while tag(z) in ('field', 'deref'):
+                                z = z[1]
+                            return z[1] if tag(z) == 'arg' else None
+                        if not (okc and argno(t_[2][0]) == 2 and argno(t_[2][1]) == 3):
+                            natural = False
+                    elif c.path and c.path.startswith('std::iter::Iterator::') and short(c.path) in ('min_by_key', 'max_by_key'):
+                        natural = False
+            if adaptors and not rev and natural:
                 lastish = [a_ for a_ in adaptors if a_.startswith('max')]
                 if lastish:
                     rep.viol('first-occurrence', key, '%s takes its index from Iterator::%s, which returns the last of several equal maxima: ties yield the last '
